@@ -378,7 +378,19 @@ class FetchAtt:
             case str():
                 match section.upper():
                     case "TEXT":
-                        return msg_as_bytes(msg, render_headers=False)
+                        text = msg_as_bytes(msg, render_headers=False)
+                        # The renderer terminates even nothing with a CRLF,
+                        # but a message without a body has no text:
+                        # BODY[HEADER] followed by BODY[TEXT] is BODY[].
+                        #
+                        if (
+                            not nested
+                            and text == b"\r\n"
+                            and not msg.is_multipart()
+                            and not msg.get_payload()
+                        ):
+                            return b""
+                        return text
                     case "MIME":
                         # XXX just use the generator as it is for MIME.. I know
                         #     this is not quite right in that it will accept
@@ -464,11 +476,11 @@ class FetchAtt:
         """
         msg_text = self._body(msg, section)
 
-        # We need to always terminate with crlf.
+        # We need to always terminate with crlf (an empty section stays
+        # empty).
         #
-        msg_text = (
-            msg_text if msg_text.endswith(b"\r\n") else msg_text + b"\r\n"
-        )
+        if msg_text and not msg_text.endswith(b"\r\n"):
+            msg_text = msg_text + b"\r\n"
 
         # If this is a partial only return the bits asked for.
         #
